@@ -9,7 +9,10 @@ package verifharness
 
 import (
 	"fmt"
+	"math/big"
 	"strings"
+
+	"github.com/ethereum/go-ethereum/common"
 )
 
 func c15pick(r *Rec, xs ...string) string { return xs[r.Rng.Intn(len(xs))] }
@@ -121,17 +124,21 @@ func c15genClientOp(r *Rec, kind string) string {
 	cons := c15genCons(r, cs)
 	sig := c15pick(r, "g", "g", "g", "m", "f")
 	abs := c15bit(r, 93)
+	hint := ""
+	if strings.HasPrefix(cs, "tss:") {
+		hint = c15rawHint(r, 35, "tss", "bech")
+	}
 	switch kind {
 	case "create":
 		ch := c15chain(r)
 		if c15coin(r, 4) {
 			ch = hxs("teleport") // the chain's own name (3b1567f)
 		}
-		return strings.Join([]string{"create", abs, ch, cs, cons, sig, "0"}, " ")
+		return strings.Join([]string{"create", abs, ch, cs, cons, sig, "0"}, " ") + hint
 	case "upgrade":
-		return strings.Join([]string{"upgrade", abs, c15chain(r), cs, cons, sig, "0", "0", "0"}, " ")
+		return strings.Join([]string{"upgrade", abs, c15chain(r), cs, cons, sig, "0", "0", "0"}, " ") + hint
 	}
-	return strings.Join([]string{"toggle", abs, c15chain(r), cs, cons, sig, "0"}, " ")
+	return strings.Join([]string{"toggle", abs, c15chain(r), cs, cons, sig, "0"}, " ") + hint
 }
 
 func c15genXgen(r *Rec) string {
@@ -238,7 +245,207 @@ func (w *c15World) c15genAddr(r *Rec) string {
 	return c15Addrs[r.Rng.Intn(len(c15Addrs))]
 }
 
-func c15genNum(r *Rec) string { return c15pick(r, "x", "0", "-1", "1", "2", "3", "10", "100000000000000000000000000") }
+// ---- lexical pools -------------------------------------------------------------------------------------------
+// The property quantifies over ALL contents accepted by stateless validation, so string-typed numeric / address fields
+// are drawn in many spellings and handed to the REAL ValidateBasic; whatever it accepts goes to the handler.
+
+// spellings of the non-negative integer v (some denote v for a base-0 parser only, some for nobody)
+func c15numSpelling(r *Rec, v *big.Int) string {
+	dec := v.String()
+	switch r.Rng.Intn(30) {
+	case 0:
+		return "+" + dec
+	case 1:
+		return "-" + dec
+	case 2:
+		return "00" + dec
+	case 3:
+		return "0x" + v.Text(16)
+	case 4:
+		return "0X" + strings.ToUpper(v.Text(16))
+	case 5:
+		return "0b" + v.Text(2)
+	case 6:
+		return "0o" + v.Text(8)
+	case 7:
+		return "0" + v.Text(8) // octal for base 0, another decimal number for base 10
+	case 8:
+		if len(dec) > 1 {
+			return dec[:1] + "_" + dec[1:]
+		}
+		return "0_" + dec
+	case 9:
+		return " " + dec
+	case 10:
+		return dec + " "
+	case 11:
+		return "\t" + dec + "\n"
+	case 12:
+		if z := strings.TrimRight(dec, "0"); z != "" && len(z) < len(dec) {
+			return fmt.Sprintf("%se%d", z, len(dec)-len(z))
+		}
+		return dec + "e0"
+	case 13:
+		return dec + ".0"
+	case 14:
+		return strings.Repeat("0", 90) + dec
+	case 15:
+		return dec + strings.Repeat("0", 90) // very long (another value)
+	case 16:
+		return ""
+	case 17:
+		return "+-" + dec
+	case 18:
+		return "\u2212" + dec // unicode minus
+	case 19: // full-width digits
+		out := ""
+		for _, c := range dec {
+			out += string(rune(0xFF10 + (c - '0')))
+		}
+		return out
+	case 20: // arabic-indic digits
+		out := ""
+		for _, c := range dec {
+			out += string(rune(0x0660 + (c - '0')))
+		}
+		return out
+	case 21:
+		return "0x"
+	case 22:
+		return "0x_" + v.Text(16)
+	case 23:
+		return dec[:1] + "," + dec[1:] + "000"
+	case 24:
+		return "0B" + v.Text(2)
+	case 25:
+		return "0O" + v.Text(8)
+	case 26:
+		return "0x" + strings.ToUpper(v.Text(16))
+	case 27:
+		return "+0x" + v.Text(16)
+	case 28:
+		return dec + "_"
+	}
+	return "12a"
+}
+
+func c15big(x string) *big.Int { v, _ := new(big.Int).SetString(x, 10); return v }
+
+// the four numeric fields of an EnableTimeBasedSupplyLimitProposal: period, limit, max, min (hex of the literal strings)
+func c15genLimitNums(r *Rec) [4]string {
+	var v [4]*big.Int // period, limit, max, min
+	switch x := r.Rng.Intn(100); {
+	case x < 70: // coherent: period > 0, 0 < min < max < limit
+		mn := c15big(c15pick(r, "1", "7", "10", "1000", "100000000000000000000"))
+		mx := new(big.Int).Mul(mn, big.NewInt(int64(2+r.Rng.Intn(60))))
+		lim := new(big.Int).Add(mx, big.NewInt(int64(1+r.Rng.Intn(1000))))
+		v = [4]*big.Int{c15big(c15pick(r, "1", "60", "3600", "86400")), lim, mx, mn}
+	case x < 85: // boundaries of the order relations
+		mn := big.NewInt(int64(r.Rng.Intn(3)))
+		mx := big.NewInt(mn.Int64() + int64(r.Rng.Intn(2)))
+		lim := big.NewInt(mx.Int64() + int64(r.Rng.Intn(2)))
+		v = [4]*big.Int{big.NewInt(int64(r.Rng.Intn(2))), lim, mx, mn}
+	default:
+		for i := range v {
+			v[i] = c15big(c15pick(r, "0", "1", "2", "3", "10", "100000000000000000000000000",
+				"115792089237316195423570985008687907853269984665640564039457584007913129639936"))
+		}
+	}
+	var out [4]string
+	nd := 0
+	for i := range v {
+		sp := v[i].String()
+		if c15coin(r, 28) {
+			sp = c15numSpelling(r, v[i])
+			nd++
+		}
+		out[i] = hxs(sp)
+	}
+	return out
+}
+
+// spellings of a 20-byte address given as 40 lower-case hex digits
+func c15addrSpelling(r *Rec, canon string) string {
+	a := common.HexToAddress("0x" + canon)
+	switch r.Rng.Intn(20) {
+	case 0:
+		return "0x" + canon
+	case 1:
+		return "0X" + canon
+	case 2:
+		return canon
+	case 3:
+		return "0x" + strings.ToUpper(canon)
+	case 4:
+		return strings.ToUpper(canon)
+	case 5:
+		return a.Hex()
+	case 6:
+		return " " + a.Hex()
+	case 7:
+		return a.Hex() + " "
+	case 8:
+		return "0x" + canon[1:] // 39 digits
+	case 9:
+		return "0x" + canon + "0" // 41 digits
+	case 10:
+		return "0x" + canon + canon
+	case 11:
+		return "0x" + canon[:20] + "_" + canon[21:]
+	case 12:
+		return ""
+	case 13:
+		return "0x"
+	case 14:
+		return "0x" + canon[:39] + "\uFF11" // a full-width digit
+	case 15:
+		return "0x0x" + canon[2:]
+	case 16:
+		return "0x" + canon[:39] + "g"
+	case 17:
+		return "0x" + strings.Repeat("0", 24) + canon // 32-byte word
+	case 18:
+		return "\t0x" + canon
+	}
+	return "0x" + canon[:38] + "zz"
+}
+
+// spellings of a bech32 account address
+func c15bech32Spelling(r *Rec, addr string) string {
+	switch r.Rng.Intn(12) {
+	case 0:
+		return strings.ToUpper(addr)
+	case 1:
+		return strings.ToUpper(addr[:10]) + addr[10:]
+	case 2:
+		return " " + addr
+	case 3:
+		return addr + " "
+	case 4:
+		return addr + "\n"
+	case 5:
+		return ""
+	case 6:
+		return "   "
+	case 7:
+		return "cosmos1" + addr[strings.IndexByte(addr, '1')+1:]
+	case 8:
+		return addr[:len(addr)-1]
+	case 9:
+		return addr + addr
+	case 10:
+		return "0x" + strings.Repeat("ab", 20) // an eth-style address where bech32 is expected
+	}
+	return addr
+}
+
+// raw=<name>:@<kind> placeholders are resolved (like ADDR) when the op is applied
+func c15rawHint(r *Rec, pct int, name, kind string) string {
+	if c15coin(r, pct) {
+		return " raw=" + name + ":@" + kind
+	}
+	return ""
+}
 
 func c15genAgen(r *Rec) string {
 	n := r.Rng.Intn(4)
@@ -272,7 +479,7 @@ func c15genRvgen(r *Rec) string {
 	for i := 0; i < k; i++ {
 		out = append(out, hxs(c15pick(r, "atele", "acoin", "bcoin", "a", "", "Bad Denom")), c15pick(r, "1", "5", "0", "-1", "nil", "100000000000000000"))
 	}
-	return strings.Join(append(out, c15pick(r, "none", "none", "bad", "good", "good"), "0", c15bit(r, 60)), " ")
+	return strings.Join(append(out, c15pick(r, "none", "none", "bad", "good", "good"), "0", c15bit(r, 60)), " ") + c15rawHint(r, 25, "f", "from")
 }
 
 func c15GenHistory(r *Rec, w *c15World) []string {
@@ -292,43 +499,40 @@ func c15GenHistory(r *Rec, w *c15World) []string {
 	n := 4 + r.Rng.Intn(10)
 	for i := 0; i < n; i++ {
 		switch x := r.Rng.Intn(100); {
-		case x < 22:
+		case x < 20:
 			emit(c15genClientOp(r, "create"))
-		case x < 36:
+		case x < 33:
 			emit(c15genClientOp(r, "upgrade"))
-		case x < 50:
+		case x < 46:
 			emit(c15genClientOp(r, "toggle"))
-		case x < 55:
+		case x < 51:
 			na := r.Rng.Intn(3)
 			nc := na
 			if c15coin(r, 25) {
 				nc = r.Rng.Intn(3)
 			}
-			emit(strings.Join([]string{"relayer", c15bit(r, 92), c15bit(r, 90), fmt.Sprint(nc), fmt.Sprint(na), c15bit(r, 90)}, " "))
-		case x < 68:
+			emit(strings.Join([]string{"relayer", c15bit(r, 92), c15bit(r, 90), fmt.Sprint(nc), fmt.Sprint(na), c15bit(r, 90)}, " ") + c15rawHint(r, 35, "addr", "bech"))
+		case x < 63:
 			emit("regcoin " + c15genMeta(r) + " 0 0 0 0 err")
+		case x < 71:
+			emit("addcoin " + c15genMeta(r) + " 0 " + c15pick(r, "-", "ADDR") + " 0 0 0" + c15rawHint(r, 30, "c", "contract"))
 		case x < 76:
-			emit("addcoin " + c15genMeta(r) + " 0 " + c15pick(r, "-", "ADDR") + " 0 0 0")
-		case x < 81:
-			emit("regerc20 0 ADDR err")
-		case x < 87:
+			emit("regerc20 0 ADDR err" + c15rawHint(r, 35, "a", "f2"))
+		case x < 82:
 			if c15coin(r, 50) {
-				emit("togglerelay 0 e:ADDR")
+				emit("togglerelay 0 e:ADDR" + c15rawHint(r, 35, "t", "f2e"))
 			} else {
 				emit("togglerelay 0 d:" + hxs(c15pick(r, "acoin", "bcoin", "ccoin", "a", "ibc/27394FB092D2ECCD56123C74F36E4C1F926001CEADA9CA97EA622B25F41E5EB2")))
 			}
-		case x < 92:
-			emit("updatepair 0 ADDR ADDR 0 0 0")
-		case x < 94:
-			emit("trace " + c15bit(r, 90) + " 0")
-		case x < 96:
-			emit("disable " + c15bit(r, 90) + " 0")
+		case x < 87:
+			emit("updatepair 0 ADDR ADDR 0 0 0" + c15rawHint(r, 25, "o", "f2") + c15rawHint(r, 25, "n", "f3"))
+		case x < 89:
+			emit("trace " + c15bit(r, 90) + " 0" + c15rawHint(r, 35, "a", "pool"))
+		case x < 91:
+			emit("disable " + c15bit(r, 90) + " 0" + c15rawHint(r, 35, "a", "pool"))
 		default:
-			if c15coin(r, 50) {
-				emit("enable 1 " + c15pick(r, "1", "60") + " 1000 100 10 1 0")
-			} else {
-				emit(strings.Join([]string{"enable", c15bit(r, 90), c15genNum(r), c15genNum(r), c15genNum(r), c15genNum(r), c15bit(r, 90), "0"}, " "))
-			}
+			n := c15genLimitNums(r)
+			emit(strings.Join([]string{"enable", c15bit(r, 93), n[0], n[1], n[2], n[3], c15bit(r, 93), "0"}, " ") + c15rawHint(r, 25, "a", "pool"))
 		}
 	}
 	return h
@@ -339,5 +543,50 @@ func (w *c15World) resolveAddrs(r *Rec, op string) string {
 	for strings.Contains(op, "ADDR") {
 		op = strings.Replace(op, "ADDR", w.c15genAddr(r), 1)
 	}
-	return op
+	if !strings.Contains(op, ":@") {
+		return op
+	}
+	var f, hints []string
+	for _, t := range strings.Fields(op) {
+		if strings.HasPrefix(t, "raw=") {
+			hints = append(hints, t)
+		} else {
+			f = append(f, t)
+		}
+	}
+	isAddr := func(t string) bool { return len(t) == 40 && common.IsHexAddress(t) }
+	for _, h := range hints {
+		i := strings.Index(h, ":@")
+		if i < 0 {
+			f = append(f, h)
+			continue
+		}
+		name, kind, sp := h[4:i], h[i+2:], ""
+		base := w.c15genAddr(r)
+		switch kind {
+		case "f2":
+			base = f[2]
+		case "f2e":
+			base = strings.TrimPrefix(f[2], "e:")
+		case "f3":
+			base = f[3]
+		case "contract":
+			if t := f[len(f)-4]; isAddr(t) {
+				base = t
+			}
+		}
+		switch kind {
+		case "bech":
+			sp = c15bech32Spelling(r, w.funded.String())
+		case "from":
+			sp = c15bech32Spelling(r, c15pick(r, w.funded.String(), w.funded.String(), w.unfunded.String()))
+		default:
+			if !isAddr(base) {
+				base = c15Addrs[0]
+			}
+			sp = c15addrSpelling(r, base)
+		}
+		f = append(f, "raw="+name+":"+hxs(sp))
+	}
+	return strings.Join(f, " ")
 }
